@@ -61,6 +61,11 @@ def _case(rng, fam, gseed, cfgd):
         case["gopts"] = {"row_force": ["eq"] * 12, "var_force": ["lower", "boxed", "upper", "lower"]}
         case["int_start"] = str(rng.choice(["array", "scalar"]))
         return case
+    if fam in ("QP", "NLP") and rng.random() < 0.3:
+        cfgd["scaling"] = "none"
+        # history of the problem object: it (or a deep copy of it) was first solved without variable bounds, then the
+        # bounds were imposed in place (as branch-and-bound style callers do) and a new solver was created
+        case["late_bounds"] = str(rng.choice(["same_object", "deepcopy"]))
     r = rng.random()
     if r < 0.1:
         case["x0"] = "none"
@@ -94,6 +99,33 @@ def run_case(case):
         p.int_start_used = not isinstance(p.x0, np.ndarray) or p.x0.dtype.kind == "i"
     if dc:
         p.params.deriv_check = DerivCheck.CheckAll
+    if case.get("late_bounds"):
+        import copy
+
+        from pygradflow.solver import Solver
+
+        free = copy.deepcopy(p.spec)
+        free.var_lb = np.full(free.n, -np.inf)
+        free.var_ub = np.full(free.n, np.inf)
+        # the object handed to both solvers is the same one (the recording wrapper, a Problem subclass like any
+        # user problem): whatever the first solve left on it is there for the second
+        rec = mon.RecordingProblem(SpecProblem(free, fmt=p.fmt, dup=p.dup))
+        rec.enabled = False
+        try:
+            Solver(rec, C.make_params(dict(cfgd, iteration_limit=3), free, weights=p.weights)).solve(
+                None if p.x0 is None else np.array(p.x0, dtype=float, copy=True), p.y0)
+        except Exception:
+            pass   # (only the history matters)
+        if case["late_bounds"] == "deepcopy":
+            rec = copy.deepcopy(rec)
+        for obj in (rec, rec.inner):
+            obj.var_lb[:] = p.spec.var_lb
+            obj.var_ub[:] = p.spec.var_ub
+        rec.calls = []
+        rec.counts = {c: 0 for c in mon.COMPONENTS}
+        rec.enabled = True
+        p.inner = rec.inner
+        p.rec = rec
     out = mon.run_solve(p.rec, p.params, p.x0, p.y0,
                         lin_fail=("nan", case["lin_nan"]) if "lin_nan" in case else None)
     cls = work.outcome_class(out)
@@ -120,6 +152,7 @@ def run_case(case):
     on_bound = bool(np.any((x0 == p.spec.var_lb) | (x0 == p.spec.var_ub)))
     res["ctr"]["starts_on_a_bound"] = int(on_bound)
     res["ctr"]["integer_dtype_starts"] = int(bool(getattr(p, "int_start_used", False)))
+    res["ctr"]["bounds_imposed_after_an_unbounded_solve"] = int(bool(case.get("late_bounds")))
     if stats["evals_checked"] > 20:
         res["nt_keys"] = ["%s-%s" % (case["fam"], "-".join(map(str, case["gseed"])))]
     if case["gseed"][-1] % 150 == 0:
@@ -133,12 +166,12 @@ def finalize(agg, tier):
     return {
         "rule": "all problem families x pairwise covering array + random configurations (all Newton types, active-set "
                 "rules, controllers, scalings) x in-bounds starts (generator start, integer-dtype arrays / Python int scalars, resampled start incl. components "
-                "exactly on bounds, x0=None) x derivative check on in 20% of the runs (exercises the exemption) x in 12% of the runs one linear solve that silently returns a vector containing NaN; "
+                "exactly on bounds, x0=None) x history of the problem object (in 30% of the QP/NLP runs, unscaled, it, or a deep copy, was solved without variable bounds first and the bounds were then imposed in place) x derivative check on in 20% of the runs (exercises the exemption) x in 12% of the runs one linear solve that silently returns a vector containing NaN; "
                 "non-trivial = more than 20 non-exempt evaluations were checked; distinct by spec seed",
         "floors": {"evals_checked": 10000, "newton_Simplified": 50, "newton_Full": 50, "newton_ActiveSet": 50,
                    "newton_Globalized": 50, "evals_exempt": 100, "callback_iterates_checked": 5000,
                    "starts_on_a_bound": 50, "integer_dtype_starts": 10,
-                   "solves_with_silent_nan_from_linear_solver": 20},
+                   "solves_with_silent_nan_from_linear_solver": 20, "bounds_imposed_after_an_unbounded_solve": 25},
         "assumptions": ["exemptions are decided from the recorded call-site chain (deriv_check:deriv_check, "
                         "scale:create_scaling), nothing else is exempt"],
     }
